@@ -200,3 +200,21 @@ def rule_locate(F, rep):
               "Transaction::locate can report a command absent without having searched both the committed graph (Storage::get_location) and every transaction tip "
               "(get_location_from over self.heads): tips are dropped from self.heads while their child sits in the unwritten perspective, so a committed command "
               "can be missed and ingested twice", f.site())
+
+
+def rule_strand_heap_reset(F, rep):
+    """Every braid starts from an empty strand heap: StrandHeap::clear empties the heap *and* resets the finalize
+    flag, and the accessor that hands the heap to braid() calls it. (The heap lives in long-lived RuntimeBuffers;
+    a braid aborted by an error leaves its strands behind, and stale strands make the next braid apply the wrong
+    set of commands.)"""
+    clr = F.fn(SH + "StrandHeap::clear")
+    ok = bool(clr.field_stores("has_finalize")) and any(c.is_("BinaryHeap::clear") for c in clr.calls)
+    rep.check(ok, "StrandHeap::clear|empties-heap-and-flag", "K1 must-pass-through",
+              "StrandHeap::clear() empties the heap and resets has_finalize",
+              "StrandHeap::clear() no longer empties the heap (or no longer resets the flag): strands left by a braid that was aborted with an error leak into the next braid", clr.site())
+    getters = [f for f in F.fns if f.crate == "aranya_runtime" and not f.derived and any(c.is_(SH + "StrandHeap::clear") for c in f.calls) and f is not clr]
+    brs = F.fn("aranya_runtime::client::braiding::braid")
+    uses = [c for c in brs.calls if any(c.path == g.path for g in getters)]
+    rep.check(bool(getters) and bool(uses), "braid|starts-from-cleared-heap", "K1 must-pass-through",
+              "braid() obtains its strand heap through an accessor that clears it (%s)" % [g.name for g in getters],
+              "braid() does not obtain its strand heap through an accessor that clears it first", brs.site())
